@@ -1,5 +1,7 @@
 #!/venv/bin/python
-"""Bounded stand-in (labelled bounded) for the f-string replacement-field opening: every expression whose left-most descendant chain
+"""Bounded stand-in (labelled bounded) for f-strings.  Family 1, literal text: every sequence of up to two of 26 text pieces (control characters,
+quotes, backslashes, braces, non-ASCII, a lone surrogate) before / after a replacement field, in a nested f-string, in a format spec and as a
+str / bytes constant inside the field.  Family 2, the replacement-field opening: every expression whose left-most descendant chain
 (through attribute, subscript, call, binary operator (13 operators), comparison, boolean operator, conditional expression; depth <= --depth)
 ends in a set/dict display or comprehension is put into f"{...}", minified and re-parsed strictly.
 
@@ -36,6 +38,47 @@ def strip(tree):
     return ast.dump(tree)
 
 
+TEXT_PIECES = ['a', '\n', '\r', '\t', '\0', '\x08', '\x0b', '\x0c', "'", '"', "'''", '"""', '\\', '{', '}', '\xe9', '\u20ac', '\U0001F600', '\x7f', '\x80',
+               '\xa0', ' ', '#', '\\n', '\\N{BULLET}', '\ud800']
+
+
+def text_family():
+    """f-strings built as trees (text part, one replacement field, text part) and as nested f-strings / format specs; source by ast.unparse."""
+    out = []
+
+    def js(parts):
+        vals = []
+        for p in parts:
+            if isinstance(p, str):
+                if p:
+                    vals.append(ast.Constant(value=p))
+            else:
+                vals.append(p)
+        return ast.JoinedStr(values=vals)
+    field = lambda e, spec=None: ast.FormattedValue(value=e, conversion=-1, format_spec=spec)
+    x = ast.Name(id='x', ctx=ast.Load())
+    seqs = [a for a in TEXT_PIECES] + [a + b for a in TEXT_PIECES for b in TEXT_PIECES]
+    for t in seqs:
+        out.append(js([t, field(x)]))
+        out.append(js([field(x), t]))
+    for t in TEXT_PIECES:
+        out.append(js([t, field(js([t, field(x)])), t]))                          # nested f-string with the same text
+        out.append(js([field(x, js([t if t not in '{}' else 'w', field(x)]))]))    # format spec text
+        out.append(js([t, field(ast.Constant(value=t + 'k')), t]))                 # string constant inside the field
+        out.append(js([t, field(ast.Constant(value=(t + 'k').encode('utf-8', 'surrogatepass')))]))
+    res = []
+    for tree in out:
+        m = ast.Module(body=[ast.Assign(targets=[ast.Name(id='v', ctx=ast.Store())], value=tree, lineno=1)], type_ignores=[])
+        ast.fix_missing_locations(m)
+        try:
+            src = ast.unparse(m)
+            ast.parse(src)
+        except Exception:
+            continue
+        res.append(src)
+    return res
+
+
 def main(argv):
     depth = 2
     if '--depth' in argv:
@@ -51,6 +94,25 @@ def main(argv):
         level = nxt
     cases, fails = 0, []
     seen = set()
+    for src in text_family():
+        try:
+            key = strip(ast.parse(src))
+        except (SyntaxError, ValueError):
+            continue
+        if key in seen:
+            continue
+        seen.add(key)
+        cases += 1
+        try:
+            out = python_minifier.minify(src, rename_locals=False, hoist_literals=False, constant_folding=False)
+        except Exception as ex:
+            fails.append({'input': src, 'failure': 'minify raised %s: %s' % (type(ex).__name__, str(ex)[:100])})
+            continue
+        try:
+            if strip(ast.parse(out)) != key:
+                fails.append({'input': src, 'failure': 'output parses to a different tree: %r' % out[:200]})
+        except (SyntaxError, ValueError) as ex:
+            fails.append({'input': src, 'failure': 'output does not parse: %r' % out[:200]})
     for e in exprs:
         for conv in ('', '!r', ':>{w}'):
             src = 'x=f"{ %s%s}"' % (e, conv)
